@@ -44,6 +44,9 @@ def moveOkAt (cfg : Cfg) (vis : List VarInfo) (rtD tD rtS tS : Nat) (tok : Tok) 
 def swapTok (vis : List VarInfo) (rt : Nat) (t : Tok) : Tok :=
   if regBytes rt ≤ 4 then moveTok vis t .zero 4 8 else moveTok vis t .none 8 8
 
+/-- the register type of the exchange: the wider of the two, at least 32 bits -/
+def swapRt (a b : Nat) : Nat := let hi := max a b; if 2 ≤ hi && hi ≤ 4 then 5 else hi
+
 structure Params where
   cfg : Cfg
   f : FrameIn
@@ -66,7 +69,8 @@ structure Hyp (p : Params) : Prop where
   swap : ∀ i j, i < p.n → j < p.n → i ≠ j → hasSwap p.cfg.arch (groupOf (p.src i).regType) = true →
     groupOf (p.src i).regType = groupOf (p.src j).regType →
     (p.out i).regId = (p.src j).regId → (p.out j).regId = (p.src i).regId →
-    ∀ rt, 5 ≤ rt → rt ≤ 6 → (swapTok p.vis rt (initTok p.vis i)).dv = true ∧ (swapTok p.vis rt (initTok p.vis j)).dv = true
+    (swapTok p.vis (swapRt (p.src i).regType (p.src j).regType) (initTok p.vis i)).dv = true ∧
+    (swapTok p.vis (swapRt (p.src i).regType (p.src j).regType) (initTok p.vis j)).dv = true
 
 /-- the token a variable's current register holds -/
 def Form (p : Params) (i : Nat) (v : Var) (tok : Tok) : Prop :=
@@ -96,6 +100,7 @@ structure WF (p : Params) (e : Emit) (M : State) : Prop where
   var : ∀ i, i < p.n → VarOK p e.ctx M i (e.ctx.var i)
   inv : ∀ g r j, g < 4 → r < 32 → physAt e.ctx g r = some j →
     j < p.n ∧ groupOf (e.ctx.var j).cur.regType = g ∧ (e.ctx.var j).cur.regId = r
+  hss : e.ctx.hasStackSrc = false
 
 theorem moveTok_var (vis : List VarInfo) (t : Tok) (k : Ext) (c w : Nat) : (moveTok vis t k c w).var = t.var := by
   unfold moveTok; split <;> rfl
